@@ -40,6 +40,8 @@ pub fn assoc(thorough: bool) -> Vec<TextCase> {
         "impl Plain for A {}",
         "impl<T> Plain for S<T> where T: Tr<X = B> {}",
         "impl<T> Plain for T where T: Other<Y = A> {}",
+        // a concrete impl whose header a generic `Tr for S<T>` header also matches (told apart by where-clauses only)
+        "impl Tr for S<B> { type X = B; }",
     ];
     let goals: Vec<String> = [
         "exists<U> { Normalize(<A as Tr>::X -> U) }",
@@ -54,6 +56,7 @@ pub fn assoc(thorough: bool) -> Vec<TextCase> {
         "S<A>: Tr<X = B>",
         "exists<U> { A: Tr<X = U> }",
         "exists<U> { S<B>: Tr<X = U> }",
+        "exists<U> { Normalize(<S<B> as Tr>::X -> U) }",
         "exists<T> { T: Tr<X = B> }",
         "forall<T> { exists<U> { Normalize(<S<T> as Tr>::X -> U) } }",
         "forall<T> { if (T: Tr) { exists<U> { Normalize(<S<T> as Tr>::X -> U) } } }",
